@@ -17,6 +17,8 @@ def main():
     # build (not use) one converter of each kind so that lazy plugin imports are done before forking
     for mk in convs.values():
         mk()
+    import worker
+    worker.fixtures()      # the include fixtures exist before forking: the children share them and the parent removes them
     out = sys.stdout
     for line in sys.stdin:
         req = json.loads(line)
